@@ -178,9 +178,12 @@ def _dotted(n):
 
 
 class Inert(ast.NodeTransformer):
-    def __init__(self, loggers):
+    def __init__(self, loggers, info=None):
         self.loggers = set(loggers)
         self.count = 0
+        info = info or {}
+        self.validators = set(info.get("validators", ()))     # functions that only check their arguments and raise
+        self.accessors = set(info.get("accessors", ()))       # methods `def m(self): return <pure expression>`
 
     def _expr_pure(self, a):
         """no call except builtins / numpy / math functions (without out=) and string formatting: evaluating it
@@ -196,6 +199,10 @@ class Inert(ast.NodeTransformer):
                     continue
                 if isinstance(n.func, ast.Attribute) and n.func.attr in ("format", "join", "keys", "values", "items", "get", "copy", "min", "max", "sum", "mean", "any", "all", "tolist", "lower", "upper", "strip"):
                     continue
+                if d is not None and d.split(".")[0] == "operator":
+                    continue
+                if isinstance(n.func, ast.Attribute) and n.func.attr in self.accessors and not n.args and not n.keywords:
+                    continue          # self.nit(), self.totnit() ...: read-only accessors
                 return False
             if isinstance(n, (ast.NamedExpr, ast.Await, ast.Yield, ast.YieldFrom)):
                 return False
@@ -286,6 +293,12 @@ class Inert(ast.NodeTransformer):
         return None
 
     def visit_Expr(self, node):
+        v = node.value
+        if isinstance(v, ast.Call):
+            nm = v.func.id if isinstance(v.func, ast.Name) else (v.func.attr if isinstance(v.func, ast.Attribute) else None)
+            if nm in self.validators and self._args_pure(v):
+                self.count += 1       # a call that can only raise for invalid arguments
+                return None
         if not isinstance(node.value, ast.Constant) and self._inert_stmt(node):
             d = _dotted(node.value.func)
             if d != "print":              # print is understood by every engine; keep the statement
@@ -343,9 +356,28 @@ class NumpyCanon(ast.NodeTransformer):
     def __init__(self):
         self.count = 0
 
+    SIGS = {"linspace": ("start", "stop", "num"), "repeat": ("a", "repeats"), "full": ("shape", "fill_value"), "where": ("condition", "x", "y"),
+            "maximum": ("x1", "x2"), "minimum": ("x1", "x2"), "tile": ("A", "reps"), "append": ("arr", "values"), "zeros": ("shape",), "ones": ("shape",),
+            "full_like": ("a", "fill_value"), "power": ("x1", "x2"), "dot": ("a", "b"), "diff": ("a",), "roll": ("a", "shift"), "reshape": ("a", "newshape"),
+            "expand_dims": ("a", "axis"), "isclose": ("a", "b"), "allclose": ("a", "b"), "vstack": ("tup",), "sum": ("a",), "abs": ("x",), "sqrt": ("x",)}
+
     def visit_Call(self, node):
         self.generic_visit(node)
         f = node.func
+        # keyword arguments of numpy functions the engines know positionally -> positional (np.repeat(x, repeats=n))
+        if isinstance(f, ast.Attribute) and isinstance(f.value, ast.Name) and f.value.id in ("np", "numpy") and f.attr in self.SIGS and node.keywords \
+                and not any(isinstance(a, ast.Starred) for a in node.args):
+            sig = self.SIGS[f.attr]
+            kw = {k.arg: k for k in node.keywords if k.arg}
+            moved = []
+            i = len(node.args)
+            while i < len(sig) and sig[i] in kw:
+                moved.append(kw.pop(sig[i]))
+                i += 1
+            if moved:
+                self.count += 1
+                node.args = list(node.args) + [k.value for k in moved]
+                node.keywords = [k for k in node.keywords if k not in moved]
         if node.keywords or not isinstance(f, ast.Attribute) or not isinstance(f.value, ast.Name):
             return node
         if f.value.id in ("np", "numpy"):
@@ -379,8 +411,60 @@ def _loggers(tree):
     return out
 
 
-def desugar(tree):
-    i = Inert(_loggers(tree))
+def collect_info(trees):
+    """project-wide facts the inert-statement pass needs: which functions are pure VALIDATORS (they look at their
+    arguments and raise, nothing else) and which methods are read-only ACCESSORS (`return <pure expression>`)"""
+    probe = Inert(set())
+    funcs = {}
+    for tree in trees:
+        for n in ast.walk(tree):
+            if isinstance(n, ast.FunctionDef):
+                funcs.setdefault(n.name, []).append(n)
+    accessors, validators = set(), set()
+    for name, defs in funcs.items():
+        ok_acc = True
+        for fn in defs:
+            body = [st for st in fn.body if not _is_doc(st)]
+            if not (len(body) == 1 and isinstance(body[0], ast.Return) and body[0].value is not None and len(fn.args.args) == 1 and probe._expr_pure(body[0].value)):
+                ok_acc = False
+        if ok_acc and not name.startswith("__"):
+            accessors.add(name)
+    probe.accessors = accessors
+    for name, defs in funcs.items():
+        ok_val = not name.startswith("__")
+        for fn in defs:
+            has_raise = False
+            for n in ast.walk(fn):
+                if n is fn:
+                    continue
+                if isinstance(n, ast.Raise):
+                    has_raise = True
+                if isinstance(n, ast.Return) and n.value is not None and not (isinstance(n.value, ast.Constant) and n.value.value is None):
+                    ok_val = False
+                if isinstance(n, (ast.Global, ast.Nonlocal, ast.Yield, ast.YieldFrom, ast.FunctionDef, ast.ClassDef, ast.Lambda, ast.Delete, ast.With, ast.While)):
+                    ok_val = False
+                if isinstance(n, (ast.Assign, ast.AugAssign, ast.AnnAssign)):
+                    ts = n.targets if isinstance(n, ast.Assign) else [n.target]
+                    if any(not isinstance(t, ast.Name) for t in ts):
+                        ok_val = False
+                if isinstance(n, ast.Call) and not probe._expr_pure(n):
+                    # a raise's exception constructor and string building are fine; anything else is not
+                    d = _dotted(n.func)
+                    if not (d and (d.endswith("Error") or d in ("Exception", "Warning", "KeyError", "NameError"))):
+                        ok_val = False
+            if not has_raise:
+                ok_val = False
+        if ok_val:
+            validators.add(name)
+    return {"validators": validators, "accessors": accessors}
+
+
+def _is_doc(st):
+    return isinstance(st, ast.Expr) and isinstance(st.value, ast.Constant) and isinstance(st.value.value, str)
+
+
+def desugar(tree, info=None):
+    i = Inert(_loggers(tree), info)
     tree = i.visit(tree)
     d = Desugar()
     tree = d.visit(tree)
@@ -502,6 +586,25 @@ def canonical_roles(trees):
             t = next(iter(cands))
             if t != "_time":
                 ren[t] = "_time"
+    # the monitor registry: the attribute  _parse_monitors  dispatches through  ( self.X[type](entry) )  -> _monitordict
+    for tree in trees:
+        for n in ast.walk(tree):
+            if isinstance(n, ast.FunctionDef) and n.name == "_parse_monitors" and n.args.args:
+                sn = n.args.args[0].arg
+                xs = {c.func.value.attr for c in ast.walk(n) if isinstance(c, ast.Call) and isinstance(c.func, ast.Subscript) and self_attr(c.func.value, sn)}
+                if len(xs) == 1:
+                    x = next(iter(xs))
+                    if x != "_monitordict":
+                        ren[x] = "_monitordict"
+            # the nozzle's cell positions: the attribute  initdisc  assigns from  <mesh>.centers()  -> _xc
+            if isinstance(n, ast.FunctionDef) and n.name == "initdisc" and n.args.args:
+                sn = n.args.args[0].arg
+                xs = {st.targets[0].attr for st in ast.walk(n) if isinstance(st, ast.Assign) and len(st.targets) == 1 and self_attr(st.targets[0], sn)
+                      and isinstance(st.value, ast.Call) and isinstance(st.value.func, ast.Attribute) and st.value.func.attr == "centers"}
+                if len(xs) == 1:
+                    x = next(iter(xs))
+                    if x != "_xc":
+                        ren[x] = "_xc"
     if not ren:
         return {}
     # collisions are looked for in the modules that use the old names on self (the solver's own module)
